@@ -323,6 +323,14 @@ def trace_core():
             "(tau r : Fin 4 → ℝ) (g0 p n lam : ℝ)", "scalar",
             explore(lambda: _call_by_name(core._get_strain_energy, crss=tau, slip_rates=r, slip_indices=real_np.arange(4), slip_rate_softest=g0,
                                           stress_exponent=p, deformation_exponent=n, nucleation_efficiency=lam)))
+        # K4: relative slip rates of olivine, for EVERY ranking of the four systems (the ranking is an integer array: no forks)
+        import itertools
+        Iv = sym_vector("I", 4)
+        for perm in itertools.permutations(range(4)):
+            out["traced_slipRatesOlivine_" + "".join(map(str, perm))] = (
+                "(I tau : Fin 4 → ℝ) (n : ℝ)", "vec4",
+                explore(lambda perm=perm: _call_by_name(core._get_slip_rates_olivine, invariants=Iv, slip_indices=real_np.array(perm), crss=tau,
+                                                        deformation_exponent=n)))
     finally:
         core.np = real_np
     return out
@@ -375,6 +383,12 @@ def selfcheck(traced, n=40, seed=0):
         }
         real["traced_strainEnergy"] = _call_by_name(core._get_strain_energy, crss=env["tau"], slip_rates=env["r"], slip_indices=np.arange(4), slip_rate_softest=env["g0"],
                                                      stress_exponent=env["p"], deformation_exponent=env["n"], nucleation_efficiency=env["lam"])
+        env["I"] = rng.normal(size=4)
+        for name in traced:
+            if name.startswith("traced_slipRatesOlivine_"):
+                perm = np.array([int(ch) for ch in name.rsplit("_", 1)[1]])
+                real[name] = _call_by_name(core._get_slip_rates_olivine, invariants=env["I"], slip_indices=perm, crss=env["tau"],
+                                           deformation_exponent=env["n"])
         for name, want in real.items():
             _, kind, tree = traced[name]
             if kind == "scalar":
